@@ -6,9 +6,12 @@ import (
 	"testing"
 
 	abci "github.com/tendermint/tendermint/abci/types"
+	"github.com/tendermint/tendermint/consensus"
+	cryptoenc "github.com/tendermint/tendermint/crypto/encoding"
 	"github.com/tendermint/tendermint/libs/log"
 	mpmock "github.com/tendermint/tendermint/mempool/mock"
 	tmproto "github.com/tendermint/tendermint/proto/tendermint/types"
+	"github.com/tendermint/tendermint/proxy"
 	sm "github.com/tendermint/tendermint/state"
 	"github.com/tendermint/tendermint/types"
 	"pgregory.net/rapid"
@@ -48,9 +51,13 @@ type lookupHistory struct {
 	known        int
 	maxDist      int64
 	sweeps       int
-	restarts     int   // node restarts: state re-read from the store, new store handle and executor
-	lastRestart  int64 // tip at the last restart (records of heights >= lastRestart+2 were written by the restarted node)
-	afterRestart int   // successful indirect lookups of heights whose record the restarted node wrote
+	restarts     int               // node restarts: state re-read from the store, new store handle and executor
+	lastRestart  int64             // tip at the last restart (records of heights >= lastRestart+2 were written by the restarted node)
+	afterRestart int               // successful indirect lookups of heights whose record the restarted node wrote
+	journal      *lib.CrashJournal // every mutation of the state DB, in order
+	crashPoints  int               // write boundaries inside block execution at which the store was reopened and audited
+	startKeys    []int             // the validators the chain starts with (genesis file, or the application's InitChain answer)
+	startPowers  []int64
 }
 
 func lastAtOrBelow(m map[int64]bool, h int64) int64 {
@@ -234,11 +241,125 @@ func (lh *lookupHistory) restart() {
 	lh.trace = append(lh.trace, fmt.Sprintf("restart@%d", tip))
 }
 
+// initChainApp answers InitChain with a validator set (and possibly consensus params), like applications that keep
+// the validators in their own genesis state do; everything else is the scripted application of the chain.
+type initChainApp struct {
+	*lib.ScriptApp
+	vals   []abci.ValidatorUpdate
+	params *abci.ConsensusParams
+}
+
+func (a *initChainApp) InitChain(req abci.RequestInitChain) abci.ResponseInitChain {
+	a.ScriptApp.InitChain(req)
+	return abci.ResponseInitChain{Validators: a.vals, ConsensusParams: a.params}
+}
+
+// handshake starts the chain the way a node does: consensus.Handshaker against the application (InitChain at app
+// height 0), then the state is read back from the store. With appVals the application returns its own validator set.
+func (lh *lookupHistory) handshake(appVals bool, profile string) {
+	t, c := lh.t, lh.c
+	app := &initChainApp{ScriptApp: c.App}
+	if appVals {
+		keys, powers := genInitial(t, profile, 5)
+		lh.startKeys, lh.startPowers = keys, powers
+		for i, k := range keys {
+			pk, err := cryptoenc.PubKeyToProto(lib.Key(k).PubKey())
+			if err != nil {
+				t.Fatalf("harness: %v", err)
+			}
+			app.vals = append(app.vals, abci.ValidatorUpdate{PubKey: pk, Power: powers[i]})
+		}
+		if rapid.Bool().Draw(t, "initchain-params") {
+			app.params = &abci.ConsensusParams{Block: &abci.BlockParams{MaxBytes: rapid.Int64Range(2_000_000, 5_000_000).Draw(t, "ic.maxbytes"),
+				MaxGas: rapid.Int64Range(-1, 1000).Draw(t, "ic.maxgas")}}
+		}
+	}
+	conns := proxy.NewAppConns(proxy.NewLocalClientCreator(app))
+	conns.SetLogger(log.NewNopLogger())
+	if err := conns.Start(); err != nil {
+		t.Fatalf("harness: proxy start: %v", err)
+	}
+	defer conns.Stop() //nolint
+	hs := consensus.NewHandshaker(c.StateStore, c.State, c.BlockStore, c.GenDoc)
+	if err := hs.Handshake(conns); err != nil {
+		t.Fatalf("harness: Handshake: %v", err)
+	}
+	st, err := c.StateStore.Load()
+	if err != nil || st.IsEmpty() {
+		t.Fatalf("harness: Load after handshake: %v", err)
+	}
+	c.State = st
+	c.Genesis = st.Copy()
+	c.States[lh.init-1] = st.Copy()
+	lh.trace = append(lh.trace, fmt.Sprintf("handshake(appvals=%v keys=%v powers=%v params=%v)", appVals, lh.startKeys, lh.startPowers, app.params != nil))
+}
+
+// crashProbe: the process dies at a write boundary inside the execution of the last block (journal entries [j0,j1) of
+// the state DB; a batch is one entry). For every such boundary the surviving database is reopened: whatever height the
+// reloaded state is at, the store must answer every height from base to that state's tip+2 with the set that was in
+// force there, and the reloaded state's own sets must be the ones in force at tip+1 / tip+2.
+func (lh *lookupHistory) crashProbe(j0, j1 int, label string) {
+	t, c := lh.t, lh.c
+	for n := j0 + 1; n < j1; n++ { // n = j1 is the uninterrupted run, checked by the sweeps
+		db := lh.journal.Materialize(n)["state"]
+		store := sm.NewStore(db, sm.StoreOptions{DiscardABCIResponses: c.Spec.DiscardABCI})
+		st, err := store.Load()
+		if err != nil {
+			t.Fatalf("crash after write %d of [%d,%d) while executing %s: Store.Load: %v", n-j0, j0, j1, label, err)
+		}
+		if st.IsEmpty() {
+			continue
+		}
+		tip := st.LastBlockHeight
+		if tip == 0 {
+			tip = lh.init - 1
+		}
+		lh.crashPoints++
+		where := fmt.Sprintf("crash after write %d of %d while executing %s, node restarts at height %d", n-j0, j1-j0, label, tip)
+		for _, p := range []struct {
+			h   int64
+			set *types.ValidatorSet
+		}{{tip + 1, st.Validators}, {tip + 2, st.NextValidators}} {
+			if d := snapOf(c.ValidatorsAt(p.h)).diff(snapOf(p.set), true); d != "" {
+				t.Fatalf("%s: the reloaded state's set for height %d is not the one in force there: %s\ntrace %v", where, p.h, d, lh.trace)
+			}
+		}
+		for h := lh.base; h <= tip+2; h++ {
+			want := c.ValidatorsAt(h)
+			got, err := store.LoadValidators(h)
+			if err != nil {
+				t.Fatalf("%s: LoadValidators(%d) fails inside [base %d, tip+2 %d]: %v\ntrace %v", where, h, lh.base, tip+2, err, lh.trace)
+			}
+			if d := snapOf(want).diff(snapOf(got), true); d != "" {
+				t.Fatalf("%s: LoadValidators(%d) is not the set in force at %d: %s\ntrace %v", where, h, h, d, lh.trace)
+			}
+			if h <= tip+1 {
+				pg, err := store.LoadConsensusParams(h)
+				if err != nil {
+					t.Fatalf("%s: LoadConsensusParams(%d) fails inside [base %d, tip+1 %d]: %v\ntrace %v", where, h, lh.base, tip+1, err, lh.trace)
+				}
+				if pw := c.States[h-1].ConsensusParams; paramsBytes(pg) != paramsBytes(pw) {
+					t.Fatalf("%s: LoadConsensusParams(%d): got %v, in force %v", where, h, pg, pw)
+				}
+			}
+		}
+	}
+}
+
 // specEvolution: the set in force at every height follows from the previous one by the model: apply the batch that
 // takes effect there (if any), then one selection run.
 func (lh *lookupHistory) specEvolution() {
 	c := lh.c
 	tip := c.Tip()
+	if tip == 0 {
+		tip = lh.init - 1
+	}
+	// the first set: priorities start at zero and one selection run is made
+	m0 := newRef(lh.startKeys, lh.startPowers)
+	m0.step()
+	if d := m0.against(c.ValidatorsAt(lh.init), true); d != "" {
+		lh.t.Fatalf("set in force at the initial height %d is not the fresh set of the specified procedure: %s\n trace %v", lh.init, d, lh.trace)
+	}
 	for h := lh.init + 1; h <= tip+2; h++ {
 		prev, cur := c.ValidatorsAt(h-1), c.ValidatorsAt(h)
 		if prev == nil || cur == nil {
@@ -283,14 +404,23 @@ func TestHistoricalLookup(t *testing.T) {
 		}
 		profile := rapid.SampledFrom([]string{"tiny", "tiny", "medium", "mixed", "huge"}).Draw(t, "profile")
 		keys, powers := genInitial(t, profile, 5)
+		journal := lib.NewCrashJournal()
 		c, err := lib.NewChain(lib.ChainSpec{Keys: keys, Powers: powers, InitialHeight: init, NoStoreBlocks: true,
-			DiscardABCI: rapid.Bool().Draw(t, "discard")})
+			DiscardABCI: rapid.Bool().Draw(t, "discard"), StateDB: journal.NewDB("state")})
 		if err != nil {
 			t.Fatalf("harness: NewChain: %v", err)
 		}
 		defer c.Close()
 		lh := &lookupHistory{t: t, c: c, init: init, base: init, valsAt: map[int64]bool{init: true}, parsAt: map[int64]bool{init: true},
-			batches: map[int64][]chg{}, cls: map[string]bool{}}
+			batches: map[int64][]chg{}, cls: map[string]bool{}, journal: journal, startKeys: keys, startPowers: powers}
+		// how the chain starts: from the genesis state as it is, or through the node's handshake with an application
+		// whose InitChain answer is empty / carries the validator set (and possibly consensus params) to start with
+		startKind := rapid.SampledFrom([]string{"genesis-state", "genesis-state", "handshake", "handshake-initchain-validators",
+			"handshake-initchain-validators", "handshake-initchain-validators"}).Draw(t, "start")
+		if startKind != "genesis-state" {
+			lh.handshake(startKind == "handshake-initchain-validators", profile)
+		}
+		lh.cls["start:"+startKind] = true
 		maxSteps := 30
 		if lib.Thorough() {
 			maxSteps = 60
@@ -374,8 +504,12 @@ func TestHistoricalLookup(t *testing.T) {
 				plan.Params = p
 				label += ":params"
 			}
+			j0 := lh.journal.Len()
 			if err := c.Advance(plan); err != nil {
 				t.Fatalf("harness: Advance at %d (%s): %v", h, label, err)
+			}
+			if rapid.IntRange(0, 3).Draw(t, "crashprobe") == 0 {
+				lh.crashProbe(j0, lh.journal.Len(), label)
 			}
 			if len(plan.ValUpdates) > 0 {
 				lh.valsAt[h+2] = true
@@ -416,7 +550,8 @@ func TestHistoricalLookup(t *testing.T) {
 			fmt.Sprintf("lookup-via-lastchanged:%v", lh.viaLast > 0), fmt.Sprintf("checkpoint-lookup-after-change:%v", lh.viaCkpt > 0 && accepted > 0),
 			fmt.Sprintf("params-indirect:%v", lh.parsInd > 0), fmt.Sprintf("answered-below-base:%v", lh.below > 0), "max-distance:" + distBucket,
 			fmt.Sprintf("known-finding-tolerated:%v", lh.known > 0), fmt.Sprintf("restarted:%v", lh.restarts > 0),
-			fmt.Sprintf("indirect-lookup-of-height-written-after-restart:%v", lh.afterRestart > 0)}
+			fmt.Sprintf("indirect-lookup-of-height-written-after-restart:%v", lh.afterRestart > 0),
+			fmt.Sprintf("crash-points-audited>=1:%v", lh.crashPoints > 0)}
 		for k := range lh.cls {
 			cls = append(cls, k)
 		}
